@@ -67,6 +67,45 @@ theorem decimal_roundtrip_fails :
     numText 0x3FD3333333333334 = bytesOf "0.3" ∧
     parseNumeric (numText 0x3FD3333333333334) = some 0x3FD3333333333333 := by decide +kernel
 
+/-- The literal reader is `std::stod` with glibc's ERANGE rule (Model/Strtod.lean): just below DBL_MIN a literal that
+rounds to 2^-1022 is still "tiny after rounding" and inexact, hence a parse error (reported by the C10 agent; the first
+model `parseNumericOld` answered 2^-1022); DBL_MIN itself and the exactly representable subnormals are read. -/
+example : parseNumeric (bytesOf "2.22507385850720119781e-308") = none ∧
+    parseNumericOld (bytesOf "2.22507385850720119781e-308") = some 0x0010000000000000 ∧
+    parseNumeric (bytesOf "2.2250738585072014e-308") = some 0x0010000000000000 ∧
+    parseNumeric (bytesOf "4.9e-324") = none ∧ parseNumeric (bytesOf "1.7976931348623159e308") = none ∧
+    parseNumeric (bytesOf "1.7976931348623157e308") = some 0x7fefffffffffffff := by decide +kernel
+
+/-- **Decimal constants: the round trip holds exactly where `std::stod` reads the "%.16g" text back.** `numOk d` — the
+hypothesis of `expr_roundtrip` on decimal leaves — is, now that both `Fmt.fmt16g` (glibc "%.16g") and `Strtod.stod` (glibc
+strtod + ERANGE rule) are exact models, the statement `std::stod (text unparse writes for d) = d`; and the parser returns the
+constant `d` from that text iff it holds (for every stop token, every fuel ≥ 3). -/
+theorem decimal_roundtrip_iff (d : UInt64) :
+    (numOk d = true ↔ Strtod.stod (numText d) = .val d) ∧
+    (∀ (rest : List Tok) (g : Nat), pElem (g + 1) (numTok d :: rest) = .ok (.num d, rest) ↔ numOk d = true) ∧
+    (numOk d = true → ∀ (t : Tok) (ts : List Tok), Stops 9 t → ∀ f, 29 ≤ f →
+      pExpr f (toksExpr (.num d) ++ t :: ts) = .ok (.num d, t :: ts)) := by
+  have h1 : numOk d = true ↔ Strtod.stod (numText d) = .val d := by
+    simp only [numOk, parseNumeric, beq_iff_eq]
+    cases h : Strtod.stod (numText d) <;> simp
+  refine ⟨h1, ?_, ?_⟩
+  · intro rest g
+    obtain ⟨c, hc, heq⟩ := numTok_eq d
+    rw [heq, pElem.eq_def]
+    cases hn : parseNumeric (numText d) with
+    | none =>
+      rcases hc with rfl | rfl <;>
+        simp [numOk, hn, cDBL, cFLT, cINT, cHEX, Gen.TOKEN_DOUBLE, Gen.TOKEN_FLOAT, Gen.TOKEN_INTEGER, Gen.TOKEN_HEXANUM]
+    | some d' =>
+      rcases hc with rfl | rfl <;>
+        simp [numOk, hn, pure, Except.pure, cDBL, cFLT, cINT, cHEX, Gen.TOKEN_DOUBLE, Gen.TOKEN_FLOAT, Gen.TOKEN_INTEGER, Gen.TOKEN_HEXANUM]
+  · intro hok t ts hst f hf
+    exact (full_rt (.num d) 9 (by simpa [wf] using hok) (lvlE_le9 _) (Nat.le_refl _)).1 t ts hst (by simp [endsVar]) f
+      (by simp [esize]; omega)
+
+example : numOk 0x3FD3333333333333 = true ∧ Strtod.stod (numText 0x3FD3333333333333) = .val 0x3FD3333333333333 :=
+  ⟨by decide +kernel, (decimal_roundtrip_iff _).1.mp (by decide +kernel)⟩
+
 /-- a decimal that "%.16g" gives back (the hypothesis `numOk` of the round trip is satisfiable) -/
 example : numOk 0x3FD3333333333333 = true ∧ numOk 0x4005bf0a8b145769 = true := by decide +kernel
 
